@@ -353,11 +353,11 @@ def make_jobs(tier, features=("trace",), limit=None):
     for i in range(n_var):
         p = sample[i % len(sample)]
         jobs.append({"path": p, "variant": gen_inputs.VARIANTS[(i // len(sample) + i) % len(gen_inputs.VARIANTS)], "vseed": seedv * 1000 + i, "config": "default", "features": feats})
-    cfgs = ["jcl", "upper", "all_enabled", "random", "random", "random_jcl", "random"]
+    cfgs = ["jcl", "upper", "all_enabled", "random", "optional_remove", "random_jcl", "random"]
     for i in range(n_cfg):
         p = sample[(i * 7 + 3) % len(sample)]
         c = cfgs[i % len(cfgs)]
-        j = {"path": p, "variant": "orig" if i % 3 else "messy", "vseed": seedv * 1000 + i, "config": c, "features": feats}
+        j = {"path": p, "variant": ("orig", "messy", "glue")[i % 3], "vseed": seedv * 1000 + i, "config": c, "features": feats}
         if c.startswith("random"):
             j["cseed"] = seedv * 1000 + (i % 40)
         jobs.append(j)
